@@ -6,6 +6,7 @@ import (
 	"fmt"
 	"os"
 	"regexp"
+	"sort"
 	"strconv"
 	"strings"
 	"testing"
@@ -223,6 +224,10 @@ func (w *worker) check(kind string, s *subject, line []byte, want *V, tag string
 			m["cfg"] = "plain"
 			if strings.Contains(s.params, "json_max_fields_size") {
 				m["cfg"] = "limits"
+				m["esc"] = "no" // a backslash anywhere in the input: the only way a cut can fall inside an escape
+				if strings.IndexByte(string(line), '\\') >= 0 {
+					m["esc"] = "yes"
+				}
 			}
 		}
 		for i := 0; i+1 < len(extra); i += 2 {
@@ -259,7 +264,7 @@ func (w *worker) check(kind string, s *subject, line []byte, want *V, tag string
 		return nil
 	}
 	r.Nontrivial()
-	r.Outcome(s.name, s.params, "ok", res.out)
+	r.Outcome(s.name, s.params, "ok", canonOut(s, res.out))
 	if want != nil {
 		got, err := Parse(res.out)
 		if err != nil || !Equal(got, want, false) {
@@ -363,20 +368,19 @@ func TestVerif(t *testing.T) {
 
 	r.Rule("case = one (decoder, parameters, byte string) decode through the public entry point inside a sentinel buffer; non-trivial = the decoder produced an event (no error); distinct = distinct (decoder, parameters, error class | encoded event)")
 	thorough := r.Thorough()
-	for _, sp := range spaces(thorough) {
-		if w.stop {
-			break
-		}
-		w.runSpace(sp, thorough)
-	}
-	if !w.stop {
-		w.roundTrips(thorough)
-	}
+	// the fidelity families are small and go first; the totality spaces take the rest of the budget
+	w.roundTrips(thorough)
 	if !w.stop {
 		w.jsonFidelity(thorough)
 	}
 	if !w.stop {
 		w.jsonLimits(thorough)
+	}
+	for _, sp := range spaces(thorough) {
+		if w.stop {
+			break
+		}
+		w.runSpace(sp, thorough)
 	}
 }
 
@@ -460,6 +464,30 @@ func normPanic(v string) string {
 		v = v[:80]
 	}
 	return digitsRe.ReplaceAllString(v, "N")
+}
+
+// canonOut removes the map-iteration order of the decoders that fill the event from Go maps
+// (nginx custom fields, syslog structured data) from what is counted as a distinct outcome.
+func canonOut(s *subject, out string) string {
+	if !(s.name == "syslog_rfc5424" || (s.name == "nginx_error" && s.params != "")) {
+		return out
+	}
+	v, err := Parse(out)
+	if err != nil {
+		return out
+	}
+	sortKeys(v)
+	return v.String()
+}
+
+func sortKeys(v *V) {
+	sort.SliceStable(v.Fields, func(i, j int) bool { return v.Fields[i].K < v.Fields[j].K })
+	for _, f := range v.Fields {
+		sortKeys(f.V)
+	}
+	for _, e := range v.Elems {
+		sortKeys(e)
+	}
 }
 
 func literalAt(s string, i int) int {
